@@ -156,6 +156,7 @@ def coq_deps(group):
 # what it builds always reflects the CURRENT tree (never what an earlier run against another tree left).
 GROUP_TRANSLATORS = {
     "stripe": "props.c04", "score": "props.c01", "maxi": "props.c07", "encode": "props.c05", "pwm": "props.c10",
+    "disc": "props.c08",
 }
 
 
